@@ -131,12 +131,14 @@ class State:
         self.defs = {}     # atom -> ('mul',a,b) ...
         self.obj = {}      # atom -> ('inst',cls)|('tuple',[atoms])|('none',)|('str',)|('stream',)
         self.num = set()   # atoms known to be of type float / int (literals, validated by isinstance, arithmetic of such)
+        self.under = set() # atoms that are mathematically > 0 but can underflow to 0.0 in floating point (exp(..) and products / powers of such)
 
     def fork(self):
         s = State()
         s.val = dict(self.val); s.env = dict(self.env); s.fld = dict(self.fld)
         s.rel = self.rel.copy(); s.defs = dict(self.defs); s.obj = dict(self.obj)
         s.num = set(self.num)
+        s.under = set(self.under)
         s.prev_fld = dict(getattr(self, 'prev_fld', {}))
         return s
 
@@ -224,6 +226,8 @@ def join_states(states):
             out.obj[a] = first.obj[a]
         if all(a in s.num for s in states):
             out.num.add(a)
+        if any(a in s.under for s in states):
+            out.under.add(a)
 
     def merge(getmap, setmap):
         names = set()
@@ -244,6 +248,8 @@ def join_states(states):
                 na = out.new(iv)
                 if all(a in s.num for s, a in zip(states, atoms)):
                     out.num.add(na)
+                if any(a in s.under for s, a in zip(states, atoms)):
+                    out.under.add(na)
                 objs_ = [s.obj.get(a) for s, a in zip(states, atoms)]
                 jo = join_obj(objs_)
                 if jo is None and all(o is not None and o[0] in ('tuple', 'seq') for o in objs_):
@@ -345,7 +351,7 @@ class Analyser:
         self_cls, def_cls, fname = self.cur[-1]
         chain = ' > '.join(f'{d}.{f}' for (_, d, f) in self.cur)
         key = (def_cls, fname, node.lineno, node.col_offset, getattr(node,'end_lineno',0), getattr(node,'end_col_offset',0), kind)
-        e = self.sinks.setdefault(key, {'unsafe': 0, 'visits': 0, 'why': set(), 'text': ast.unparse(node)[:90],
+        e = self.sinks.setdefault(key, {'unsafe': 0, 'visits': 0, 'why': set(), 'text': ast.unparse(node).split('\n')[0][:90],
                                         'chains': set()})
         e['visits'] += 1
         if not ok:
@@ -652,6 +658,8 @@ class Analyser:
                 continue        # the divisor is exactly zero: every execution raises here (recorded as a sink), none continues
             if a in s.num and b in s.num:
                 s.num.add(r)    # float / int arithmetic yields float / int
+            if isinstance(node.op, (ast.Mult, ast.Pow)) and (a in s.under or (b in s.under and isinstance(node.op, ast.Mult))):
+                s.under.add(r)
             out.append((s, r))
         return out
 
@@ -900,7 +908,10 @@ class Analyser:
             self.sink(node, 'sqrt', ok, f'argument in {iv}')
             return s.new(I.sqrt(iv), d=('sqrt', args[0]))
         if name == 'exp':
-            return s.new(I.exp(iv), d=('exp', args[0]))
+            a_ = s.new(I.exp(iv), d=('exp', args[0]))
+            if iv.lo == -I.INF or iv.lo < -700.0:
+                s.under.add(a_)           # exp of a large negative number is 0.0
+            return a_
         if name == 'floor' or name == 'ceil':
             ok = iv.finite() and not iv.nan
             self.sink(node, name, ok, f'argument in {iv}')
@@ -1353,6 +1364,7 @@ class Analyser:
                     break
             prev = self.summary(cand)
             head = cand
+        self._absorbing_check(node, head, test, body)
         # final pass from stable head to collect exits/returns (and record sinks)
         body_in = self.assume(head.fork(), test, True) if test is not None else [head.fork()]
         f = self.block(body_in, body) if body_in else Flow()
@@ -1367,6 +1379,44 @@ class Analyser:
         flow.normal = exit_states
         flow.breaks_seen = list(f.breaks)
         return flow
+
+    def _absorbing_check(self, node, head, test, body):
+        """A loop whose progress is `v *= u` with 0 <= u < 1 and v >= 0 drives v to 0.0 (floating point underflow), where it stays: the loop
+        must be certain to end from v == 0.0.  Quantities that are positive only mathematically (exp of a large negative number and
+        products of such) count as possibly 0.0 here."""
+        if not self.record:
+            return
+        endless_for = isinstance(node, ast.For) and isinstance(node.iter, ast.Call) and ast.unparse(node.iter.func) in ('itertools.count', 'count')
+        if not (isinstance(node, ast.While) or endless_for):
+            return                    # a for-loop over a finite iterable ends by itself
+        cands = set()
+        for x in ast.walk(ast.Module(body=list(body), type_ignores=[])):
+            if isinstance(x, ast.AugAssign) and isinstance(x.op, ast.Mult) and isinstance(x.target, ast.Name):
+                cands.add(x.target.id)
+            elif isinstance(x, ast.Assign) and len(x.targets) == 1 and isinstance(x.targets[0], ast.Name) and isinstance(x.value, ast.BinOp) \
+                    and isinstance(x.value.op, ast.Mult) and any(isinstance(o, ast.Name) and o.id == x.targets[0].id for o in (x.value.left, x.value.right)):
+                cands.add(x.targets[0].id)
+        for v in sorted(cands):
+            if v not in head.env or not head.iv(head.env[v]).ge0() or head.iv(head.env[v]).nan:
+                continue
+            # is the factor a unit-interval quantity?  run the body once from the head and look at v afterwards: it must not grow
+            s0 = head.fork()
+            zero = s0.new(I.const(0.0), d=('const', 0.0))
+            s0.env[v] = zero
+            for a in list(s0.under):
+                iv = s0.iv(a)
+                if not iv.empty and iv.lo == 0.0 and iv.lo_open:
+                    s0.val[a] = Itv(0.0, iv.hi, False, iv.hi_open, iv.nan, iv.isint)
+            saved = self.record
+            self.record = False
+            try:
+                ins = self.assume(s0, test, True) if test is not None else [s0]
+                f = self.block(ins, body) if ins else Flow()
+            finally:
+                self.record = saved
+            stuck = [x for x in (f.normal + f.conts) if v in x.env and x.iv(x.env[v]).is_point() and x.iv(x.env[v]).lo == 0.0]
+            self.sink(node, 'loop', not stuck,
+                      f'once `{v}` has reached 0.0 (underflow of the product) it stays 0.0 and the exit test is not certain there: the loop need not end')
 
     def st_While(self, st, node):
         test = node.test
@@ -1472,6 +1522,8 @@ class Analyser:
             atoms[f] = a
             if f in inv.get('num', ()):
                 st.num.add(a)
+            if f in inv.get('under', ()):
+                st.under.add(a)
         for (f, op, g) in inv['facts']:
             st.rel.add(atoms[f], op, atoms[g])
         return st
@@ -1517,7 +1569,8 @@ class Analyser:
                         elif p == {'<', '>'}: fs.add((f, '!=', g))
             facts = fs if facts is None else (facts & fs)
         numf = {f for f in names if all(f in s.fld and s.fld[f] in s.num for s in states if f in s.fld) and any(f in s.fld for s in states)}
-        return {'fields': fields, 'facts': facts or set(), 'num': numf}
+        underf = {f for f in names if any(f in s.fld and s.fld[f] in s.under for s in states)}
+        return {'fields': fields, 'facts': facts or set(), 'num': numf, 'under': underf}
 
     def class_invariant(self, cname):
         if cname in self.invariants:
@@ -1574,6 +1627,7 @@ class Analyser:
                     elif now:
                         nn.add(f)
                 inv['num'] = nn
+                inv['under'] = set(inv.get('under', set())) | set(new.get('under', set()))
                 seen_before_fields |= set(new['fields'])
                 self.apply_axioms(cname, inv)
                 if not changed:
